@@ -65,14 +65,16 @@ def build(ctx, rng, n, symm, names, via_balance=False, sparse=False):
                        if not sparse else "sparse05")
     W = {nm: gen_weights(rng, n) for nm in names}
     path = ctx.path()
-    make_cooler(path, bt, P, symm=symm, bins_extra=W)
+    group = "/" if rng.random() < 0.6 or sparse else "/cells/c1"
+    uri = path + ("::" + group if group != "/" else "")
+    make_cooler(uri, bt, P, symm=symm, bins_extra=W)
     if via_balance and symm:
-        clr = cooler.Cooler(path)
+        clr = cooler.Cooler(uri)
         w, _ = cooler.balance_cooler(clr, store=True, store_name="balw", ignore_diags=1, min_nnz=1, mad_max=0,
                                      max_iters=50)
         with h5py.File(path, "r") as f:
-            W["balw"] = f["bins/balw"][:]
-    return path, bt, P, W
+            W["balw"] = f[group]["bins/balw"][:]
+    return uri, bt, P, W
 
 
 def expected(D, wi, wj, divisive):
@@ -147,7 +149,7 @@ def one_cooler(ctx, cid, rng, n, nsample):
     clr = cooler.Cooler(path)
     with ctx.case(cid, {"n": n, "symm": symm, "bt": bt, "weights": {k: v for k, v in W.items()},
                         "pixels": rows[:100]}) as c:
-        c.feature(f"mode:{'symm' if symm else 'square'}")
+        c.feature(f"mode:{'symm' if symm else 'square'}", "location:nested-group" if "::" in path else "location:root")
         if "balw" in W:
             c.feature("stored-by-balance_cooler")
         if nsample is None:
@@ -192,7 +194,7 @@ def one_cooler(ctx, cid, rng, n, nsample):
         ctx.evaluations += nw - 1
         ctx.extra["windows"] = ctx.extra.get("windows", 0) + nw
         ctx.sample({"n": n, "symm": symm, "weight_columns": list(W), "windows": nw}, limit=4)
-    os.remove(path)
+    os.remove(path.split("::")[0])
 
 
 def run_cli(ctx, shard):
@@ -269,4 +271,4 @@ def run_cli(ctx, shard):
                         lambda: {"got": got[:8], "want": wantb[:8]})
             c.nontrivial("cli", cid, n, symm)
             ctx.sample({"cli": "cooler dump -b", "n": n, "rows": len(rows)}, limit=2)
-        os.remove(path)
+        os.remove(path.split("::")[0])
